@@ -199,7 +199,7 @@ Section StepLaw.
   Proof.
     unfold step, law_step. destruct o as [v|].
     - (* Assign *)
-      destruct (e_validate E v) as [w|]; [|cbn; rewrite opt_val_eqb_refl; reflexivity].
+      destruct (e_validate E v) as [w|]; [|reflexivity].
       destruct (e_kind E) as [m|] eqn:K.
       + (* normal trait *)
         destruct (is_nil hs) eqn:Hnil.
@@ -224,7 +224,7 @@ Section StepLaw.
             - destruct (old =? w); [inversion Ex; subst; cbn; lia|]. cbn [negb andb].
               destruct (e_eq E old w), (e_ne E old w); inversion Ex; subst; destruct (h_mech h); cbn; lia. }
           destruct (per_handler_bounds changed (OVal old) w lo hi Hb) as [B1 B2].
-          rewrite Hcs, Hsk, B1, B2, emitted_truthful, emitted_sink. cbn [chk app].
+          rewrite Hcs, B1, B2, emitted_truthful. cbn [chk app].
           (* agreement *)
           destruct (agreement_demanded E old w) eqn:Ag; [|reflexivity]. cbn [negb orb].
           assert (exists b, forall h, In h hs -> changed && accepted E h (OVal old) w = b) as [b Hbq].
@@ -245,12 +245,12 @@ Section StepLaw.
         assert (forall h, In h hs -> 1 <= (if true && accepted E h OUndefined w then 1 else 0) <= 1) as Hb
           by (intros; cbn; lia).
         destruct (per_handler_bounds true OUndefined w 1 1 Hb) as [B1 B2].
-        rewrite Hcs, Hsk, B1, B2, emitted_truthful, emitted_sink. cbn [chk app negb orb].
+        rewrite Hcs, B1, B2, emitted_truthful. cbn [chk app negb orb].
         rewrite (per_handler_agree true OUndefined w true); [reflexivity|]. intros; reflexivity.
     - (* Read *)
-      destruct (e_kind E) as [m|]; [|cbn; rewrite opt_val_eqb_refl; reflexivity].
-      destruct s as [x|]; [cbn; rewrite Nat.eqb_refl; reflexivity|].
-      rewrite notify_uninitialized. cbn. rewrite Nat.eqb_refl. reflexivity.
+      destruct (e_kind E) as [m|]; [|reflexivity].
+      destruct s as [x|]; [reflexivity|].
+      rewrite notify_uninitialized. reflexivity.
   Qed.
 
   Theorem run_law ops : forall s i, law_hist E i s (run E s ops) = [].
